@@ -68,7 +68,7 @@ def run_jobs(jobs, nproc=None, progress=True):
     with ctx.Pool(nproc, maxtasksperchild=8) as pool:
         for i, r in enumerate(pool.imap_unordered(run_job, jobs)):
             results.append(r)
-            if progress and (i + 1) % 10 == 0:
+            if progress and os.environ.get("PROGRESS") and (i + 1) % 10 == 0:
                 print("  .. %d/%d jobs" % (i + 1, len(jobs)), file=sys.stderr, flush=True)
     return results
 
